@@ -3,6 +3,8 @@ package main
 import (
 	"fmt"
 	"math"
+	"os"
+	"time"
 
 	"github.com/esimov/gogu"
 	"verif/enum"
@@ -437,7 +439,109 @@ func refRange(args []int) (res []int, invalid bool) {
 	return res, false
 }
 
+// c13RangeNearLimits: ascending ranges that end at (or just below) the largest value of the element
+// type, for unsigned and signed types of 8 and 64 bits: the progression must come out exactly, with no
+// wrap-around and no detour through a narrower or signed representation.
+func c13RangeNearLimits[T gogu.Number](r *R, tn string, max T) {
+	for off := T(1); off <= 7; off++ {
+		for step := T(1); step <= 3; step++ {
+			for _, endOff := range []T{0, 1} {
+				start, end := max-off-endOff, max-endOff
+				var want []T
+				for i := start; i < end; {
+					want = append(want, i)
+					if end-i <= step {
+						break
+					}
+					i += step
+				}
+				for _, form := range []int{2, 3} {
+					if form == 2 && step != 1 {
+						continue
+					}
+					var got, gotR []T
+					var err, errR error
+					wit := fmt.Sprintf("Range[%s](%v,%v,%v)", tn, start, step, end)
+					p, msg, hung := enum.TryTimeout(3*time.Second, func() {
+						if form == 2 {
+							got, err = gogu.Range(start, end)
+							gotR, errR = gogu.RangeRight(start, end)
+						} else {
+							got, err = gogu.Range(start, step, end)
+							gotR, errR = gogu.RangeRight(start, step, end)
+						}
+					})
+					r.Eval("Range[" + tn + "]")
+					if hung {
+						// the abandoned call may be appending without end: report and leave at once
+						r.Bad("Range/does-not-terminate/near-type-limit", wit, "did not return within 3 s")
+						r.Set("exhaustive_note", "left early: a helper call did not terminate")
+						os.Exit(r.conclude(nil))
+					}
+					if p {
+						r.Bad("Range/panic/near-type-limit", wit, "panicked: %s", msg)
+						continue
+					}
+					if err != nil || !eqSlice(got, want) {
+						r.Bad("Range/wrong-progression/near-type-limit", wit, "got (%v,%v), want %v", got, err, want)
+					}
+					rev := append([]T{}, want...)
+					for i, j := 0, len(rev)-1; i < j; i, j = i+1, j-1 {
+						rev[i], rev[j] = rev[j], rev[i]
+					}
+					if errR != nil || !eqSlice(gotR, rev) {
+						r.Bad("RangeRight/not-reverse-of-Range/near-type-limit", wit, "RangeRight = (%v,%v), want %v", gotR, errR, rev)
+					}
+				}
+			}
+		}
+	}
+}
+
+// c13RangeDown: descending ranges that end at the smallest value of the element type (0 for unsigned
+// types): start, start-step, ... strictly above end.
+func c13RangeDown[T gogu.Number](r *R, tn string, min T) {
+	for off := T(1); off <= 8; off++ {
+		for step := T(1); step <= 3; step++ {
+			start, end := min+off, min
+			var want []T
+			for i := start; i > end; {
+				want = append(want, i)
+				if i-end <= step {
+					break
+				}
+				i -= step
+			}
+			var got []T
+			var err error
+			wit := fmt.Sprintf("Range[%s](%v,%v,%v)", tn, start, step, end)
+			p, msg, hung := enum.TryTimeout(3*time.Second, func() { got, err = gogu.Range(start, step, end) })
+			r.Eval("Range[" + tn + "]")
+			switch {
+			case hung:
+				r.Bad("Range/does-not-terminate/near-type-limit", wit, "did not return within 3 s")
+				r.Set("exhaustive_note", "left early: a helper call did not terminate")
+				os.Exit(r.conclude(nil))
+			case p:
+				r.Bad("Range/panic/near-type-limit", wit, "panicked: %s", msg)
+			case err != nil || !eqSlice(got, want):
+				r.Bad("Range/wrong-progression/near-type-limit", wit, "got (%v,%v), want %v", got, err, want)
+			}
+		}
+	}
+}
+
 func c13Range(r *R) {
+	c13RangeDown[uint8](r, "uint8", 0)
+	c13RangeDown[uint64](r, "uint64", 0)
+	c13RangeDown[int8](r, "int8", math.MinInt8)
+	c13RangeDown[int64](r, "int64", math.MinInt64)
+	c13RangeNearLimits[uint8](r, "uint8", math.MaxUint8)
+	c13RangeNearLimits[uint64](r, "uint64", math.MaxUint64)
+	c13RangeNearLimits[uint](r, "uint", math.MaxUint)
+	c13RangeNearLimits[int8](r, "int8", math.MaxInt8)
+	c13RangeNearLimits[int64](r, "int64", math.MaxInt64)
+	c13RangeNearLimits[uint32](r, "uint32", math.MaxUint32)
 	var argLists [][]int
 	argLists = append(argLists, []int{}, []int{1, 1, 5, 1})
 	for a := -10; a <= 10; a++ {
